@@ -751,3 +751,198 @@ theorem resample_mean_variance (w : Fin M → ℝ) (hw : ∑ i, w i = 1) (hN : 0
 
 end objruns
 end PP.Filter
+
+namespace PP.Filter
+open Matrix
+open scoped MatrixOrder
+
+/-! ### positive definiteness along a run (what the default Cholesky root needs); lemmas that hold by construction of the model -/
+
+section pass4
+variable {n m p : Nat}
+
+/-- information form: the Kalman posterior covariance times `P⁻⁻¹ + CᵀR⁻¹C` is the identity -/
+theorem kf_cov_mul_information (Pm : Matrix (Fin n) (Fin n) ℝ) (C : Matrix (Fin p) (Fin n) ℝ)
+    (R : Matrix (Fin p) (Fin p) ℝ) (hPm : IsUnit Pm.det) (hR : IsUnit R.det) (hS : IsUnit (C * Pm * Cᵀ + R).det) :
+    (Pm - Pm * Cᵀ * (C * Pm * Cᵀ + R)⁻¹ * C * Pm) * (Pm⁻¹ + Cᵀ * R⁻¹ * C) = 1 := by
+  set S := C * Pm * Cᵀ + R with hSdef
+  set Mx := Pm * Cᵀ with hM
+  have hCPC : C * Mx = S - R := by rw [hM, ← Matrix.mul_assoc, hSdef]; abel
+  have h1 : (Pm - Mx * S⁻¹ * C * Pm) * Pm⁻¹ = 1 - Mx * S⁻¹ * C := by
+    rw [Matrix.sub_mul, Matrix.mul_nonsing_inv _ hPm, Matrix.mul_assoc (Mx * S⁻¹ * C), Matrix.mul_nonsing_inv _ hPm,
+      Matrix.mul_one]
+  have h2 : (Pm - Mx * S⁻¹ * C * Pm) * (Cᵀ * R⁻¹ * C) = Mx * S⁻¹ * C := by
+    have e : (Pm - Mx * S⁻¹ * C * Pm) * (Cᵀ * R⁻¹ * C) = Mx * R⁻¹ * C - Mx * S⁻¹ * (C * Mx) * R⁻¹ * C := by
+      rw [hM]; simp only [Matrix.sub_mul, Matrix.mul_assoc]
+    rw [e, hCPC, Matrix.mul_sub, Matrix.sub_mul, Matrix.sub_mul, Matrix.nonsing_inv_mul_cancel_right _ _ hS,
+      Matrix.mul_assoc (Mx * S⁻¹) R, Matrix.mul_nonsing_inv _ hR, Matrix.mul_one]
+    abel
+  rw [Matrix.mul_add, h1, h2]
+  abel
+
+/-- with `P⁻ ≻ 0` and `R ≻ 0` the Kalman posterior covariance is positive definite (so it has a Cholesky factor) -/
+theorem kf_cov_pd {Pm : Matrix (Fin n) (Fin n) ℝ} (C : Matrix (Fin p) (Fin n) ℝ) {R : Matrix (Fin p) (Fin p) ℝ}
+    (hPm : Pm.PosDef) (hR : R.PosDef) : (Pm - Pm * Cᵀ * (C * Pm * Cᵀ + R)⁻¹ * C * Pm).PosDef := by
+  have hpsd := kf_cov_psd C hPm.posSemidef hR
+  have hS := PosDef.isUnit_det' (innovCov_pd (C := C) hPm.posSemidef hR)
+  have hinfo := kf_cov_mul_information Pm C R (PosDef.isUnit_det' hPm) (PosDef.isUnit_det' hR) hS
+  exact hpsd.posDef_iff_isUnit.mpr ((Matrix.isUnit_iff_isUnit_det _).2 (Matrix.isUnit_det_of_right_inverse hinfo))
+
+theorem predCov_pd {A P Q : Matrix (Fin n) (Fin n) ℝ} (hP : P.PosSemidef) (hQ : Q.PosDef) :
+    (A * P * Aᵀ + Q).PosDef := by
+  have := hP.mul_mul_conjTranspose_same A
+  rw [conjTranspose_eq_transpose_of_trivial] at this
+  exact hQ.posSemidef_add this
+
+
+/-- noise covariances positive definite (what the default Cholesky root of the UKF needs along a run) -/
+def LinStep.okPD (l : LinStep n m p) : Prop := l.Q.PosDef ∧ l.R.PosDef
+
+theorem LinStep.okPD.ok {l : LinStep n m p} (h : l.okPD) : l.ok := ⟨h.1.posSemidef, h.2⟩
+
+theorem LinStep.kalman_cov_pd (l : LinStep n m p) (hl : l.okPD) {b : Belief n} (hb : b.cov.PosSemidef) :
+    (l.kalman b).cov.PosDef := by
+  simp only [LinStep.kalman, Filter.kalman, kfStep]
+  exact kf_cov_pd _ (predCov_pd hb hl.1) hl.2
+
+/-- core of `ukf_linear_eq_kf`: all that is needed of the matrix square root are the two factorisations the call makes -/
+theorem ukf_linear_eq_kf_of_factors (pinv : Mat ℝ p p → Mat ℝ p p)
+    (hpinv : ∀ S : Matrix (Fin p) (Fin p) ℝ, IsUnit S.det → pinv S = S⁻¹)
+    (msqrt : Matrix (Fin n) (Fin n) ℝ → Matrix (Fin n) (Fin n) ℝ)
+    (kk : ℝ) (hk : -(n : ℝ) < kk)
+    (l : LinStep n m p) (hl : l.ok) (b : Belief n) (hb : b.cov.PosSemidef)
+    (h1 : msqrt (((n : ℝ) + kk) • b.cov) * (msqrt (((n : ℝ) + kk) • b.cov))ᵀ = ((n : ℝ) + kk) • b.cov)
+    (h2 : msqrt (((n : ℝ) + kk) • (l.A * b.cov * l.Aᵀ + l.Q)) * (msqrt (((n : ℝ) + kk) • (l.A * b.cov * l.Aᵀ + l.Q)))ᵀ
+      = ((n : ℝ) + kk) • (l.A * b.cov * l.Aᵀ + l.Q)) :
+    (ukf pinv msqrt kk l.toStep ⟨b.mean, b.cov⟩).x = (l.kalman b).mean ∧
+    (ukf pinv msqrt kk l.toStep ⟨b.mean, b.cov⟩).P = (l.kalman b).cov := by
+  have hN : 0 < (n : ℝ) + kk := by linarith
+  have hab : w0 n kk + 2 * n * wr n kk = 1 := by
+    simp only [w0, wr, k_real]; field_simp; push_cast; ring
+  have h2b : 2 * wr n kk * ((n : ℝ) + kk) = 1 := by
+    simp only [wr, k_real]; field_simp; push_cast; ring
+  obtain ⟨hQ, hR⟩ := hl
+  set N : ℝ := (n : ℝ) + kk with hNdef
+  set L1 := msqrt (N • b.cov) with hL1def
+  have hL1 : L1 * L1ᵀ = N • b.cov := h1
+  have hPmpsd : (l.A * b.cov * l.Aᵀ + l.Q).PosSemidef := predCov_psd hb hQ
+  set Pm := l.A * b.cov * l.Aᵀ + l.Q with hPmdef
+  set L2 := msqrt (N • Pm) with hL2def
+  have hL2 : L2 * L2ᵀ = N • Pm := h2
+  have e1 : (2 * wr n kk) • (l.A * L1 * (l.A * L1)ᵀ) = l.A * b.cov * l.Aᵀ := by
+    rw [Matrix.transpose_mul, Matrix.mul_assoc l.A L1, ← Matrix.mul_assoc L1, hL1, Matrix.smul_mul, Matrix.mul_smul,
+      smul_smul, h2b, one_smul, Matrix.mul_assoc]
+  have e2 : l.Q + l.A * b.cov * l.Aᵀ = Pm := add_comm _ _
+  have e3 : (2 * wr n kk) • (l.C * L2 * (l.C * L2)ᵀ) = l.C * Pm * l.Cᵀ := by
+    rw [Matrix.transpose_mul, Matrix.mul_assoc l.C L2, ← Matrix.mul_assoc L2, hL2, Matrix.smul_mul, Matrix.mul_smul,
+      smul_smul, h2b, one_smul, Matrix.mul_assoc]
+  have e4 : (2 * wr n kk) • (L2 * (l.C * L2)ᵀ) = Pm * l.Cᵀ := by
+    rw [Matrix.transpose_mul, ← Matrix.mul_assoc L2, hL2, Matrix.smul_mul, smul_smul, h2b, one_smul]
+  have e5 : l.R + l.C * Pm * l.Cᵀ = l.C * Pm * l.Cᵀ + l.R := add_comm _ _
+  have hS := PosDef.isUnit_det' (innovCov_pd (C := l.C) hPmpsd hR)
+  simp only [ukf, LinStep.toStep, affSys, MemoV.fn_of, MemoM.mfn_of', sigmaPoints_eq, mulVec_eq', vadd_eq,
+    vsub_eq, wsum_affine _ _ hab, dev_map_affine, dev_sig, cov_devSig, madd_eq', ← hNdef, ← hL1def, e1, e2, ← hL2def,
+    e3, e4, e5, hpinv _ hS, mmul_eq', msub_eq', transpose_eq', LinStep.kalman, kalman, kfStep]
+  rw [← hPmdef]
+  refine ⟨rfl, ?_⟩
+  have hSsym : (l.C * Pm * l.Cᵀ + l.R)ᵀ = l.C * Pm * l.Cᵀ + l.R := (innovCov_pd (C := l.C) hPmpsd hR).isHermitian
+  have hPsym : Pmᵀ = Pm := hPmpsd.isHermitian
+  rw [Matrix.nonsing_inv_mul_cancel_right _ _ hS, Matrix.transpose_mul, Matrix.transpose_mul, Matrix.transpose_transpose,
+    Matrix.transpose_nonsing_inv, hSsym, hPsym]
+  simp only [Matrix.mul_assoc]
+  rfl
+
+
+/-! The following statements hold by construction of the model (`foldl`, `filterMap`, `match`): they record what the model
+says about statelessness, atomicity and argument resolution. That the REAL objects behave like this is decided by the
+history streams of the harness (object reuse, copies, failing calls, per-call sources), not by these lemmas. -/
+
+/-- **Object reuse = fresh object (statelessness), any system.** A run is a plain fold of the one-call function:
+splitting a history anywhere and continuing from the intermediate posterior — e.g. with a freshly constructed filter
+— gives the same result, for arbitrary (non-linear) systems and arbitrary per-call arguments. Anything a filter object
+remembers between calls (caches of weights, Jacobians, factors) must therefore be invisible. -/
+theorem run_append {α : Type} [Scalar α] (pinv : Mat α p p → Mat α p p) (msqrt : Mat α n n → Mat α n n)
+    (s₁ s₂ : List (Step α n m p)) (c₁ c₂ : List (α × Step α n m p)) (pr : Post α n) :
+    runEKF pinv (s₁ ++ s₂) pr = runEKF pinv s₂ (runEKF pinv s₁ pr) ∧
+    runUKF pinv msqrt (c₁ ++ c₂) pr = runUKF pinv msqrt c₂ (runUKF pinv msqrt c₁ pr) := by
+  simp [runEKF, runUKF, List.foldl_append]
+
+/-- the last call of a run sees only the posterior of the calls before it and its own arguments -/
+theorem run_last_call {α : Type} [Scalar α] (pinv : Mat α p p → Mat α p p) (msqrt : Mat α n n → Mat α n n)
+    (ss : List (Step α n m p)) (s : Step α n m p) (cs : List (α × Step α n m p)) (kk : α) (pr : Post α n) :
+    runEKF pinv (ss ++ [s]) pr = ekf pinv s (runEKF pinv ss pr) ∧
+    runUKF pinv msqrt (cs ++ [(kk, s)]) pr = ukf pinv msqrt kk s (runUKF pinv msqrt cs pr) := by
+  simp [runEKF, runUKF, List.foldl_append]
+
+/-- **Each of `Q`, `R` is resolved on its own.** A covariance passed for the call is the one used, whatever the object
+stores for it and whether or not the *other* covariance is passed or stored; a covariance not passed is the stored one.
+(The seeded change "if Q is None or R is None: Q, R = self.Q, self.R" violates the first two equations.) -/
+theorem call_resolution_independent {α : Type} [Scalar α] (pinv : Mat α p p → Mat α p p) (msqrt : Mat α n n → Mat α n n)
+    (kk : α) (sys : Sys α n m p) (u : Vec α m) (y : Vec α p) (Q Q' : Mat α n n) (R R' : Mat α p p)
+    (stQ : Option (Mat α n n)) (stR : Option (Mat α p p)) (pr : Post α n) :
+    -- exactly one of the two is passed, the other is taken from the object
+    ekfCall pinv stQ (some R') sys u y (some Q) none pr = some (ekf pinv ⟨sys, u, y, Q, R'⟩ pr) ∧
+    ekfCall pinv (some Q') stR sys u y none (some R) pr = some (ekf pinv ⟨sys, u, y, Q', R⟩ pr) ∧
+    ukfCall pinv msqrt kk stQ (some R') sys u y (some Q) none pr = some (ukf pinv msqrt kk ⟨sys, u, y, Q, R'⟩ pr) ∧
+    ukfCall pinv msqrt kk (some Q') stR sys u y none (some R) pr = some (ukf pinv msqrt kk ⟨sys, u, y, Q', R⟩ pr) ∧
+    -- both passed: the stored values are irrelevant; none passed: the stored values are used
+    ekfCall pinv stQ stR sys u y (some Q) (some R) pr = some (ekf pinv ⟨sys, u, y, Q, R⟩ pr) ∧
+    ekfCall pinv (some Q') (some R') sys u y none none pr = some (ekf pinv ⟨sys, u, y, Q', R'⟩ pr) := by
+  simp [ekfCall, ukfCall, resolve]
+
+/-- **A failing call is no call** (atomicity of error paths): a history with calls that raised, after which the caller
+continued with the estimate it had, equals the history without those calls. -/
+theorem failed_call_is_no_call {α : Type} [Scalar α] (pinv : Mat α p p → Mat α p p)
+    (calls : List (Option (Step α n m p))) (pr : Post α n) :
+    runEKFopt pinv calls pr = runEKF pinv (calls.filterMap id) pr := by
+  induction calls generalizing pr with
+  | nil => rfl
+  | cons c rest ih =>
+    cases c with
+    | none => simpa [runEKFopt, runEKF] using ih pr
+    | some s => simpa [runEKFopt, runEKF] using ih (ekf pinv s pr)
+
+/-- **One object, per-call argument sources (glue = core).** A history on one EKF / UKF object in which every call
+resolves its own `Q`, `R` (passed or stored) and, for UKF, its own `k` (`None ↦ 3 − n`), and in which calls that cannot
+resolve a covariance raise and leave everything as it was, is the plain run over the resolved calls. Any systems. -/
+theorem runEKFobj_eq {α : Type} [Scalar α] (pinv : Mat α p p → Mat α p p) (stQ : Option (Mat α n n))
+    (stR : Option (Mat α p p)) (calls : List (Call α n m p)) (pr : Post α n) :
+    runEKFobj pinv stQ stR calls pr = runEKF pinv (calls.filterMap (Call.toStep stQ stR)) pr := by
+  induction calls generalizing pr with
+  | nil => rfl
+  | cons c rest ih =>
+    simp only [runEKFobj, List.foldl_cons, List.filterMap_cons, ekfCall, Call.toStep] at ih ⊢
+    cases hq : resolve c.pQ stQ <;> cases hr : resolve c.pR stR <;> simp only [runEKF, List.foldl_cons] <;> exact ih _
+
+/-- the same for one UKF object -/
+theorem runUKFobj_eq {α : Type} [Scalar α] (pinv : Mat α p p → Mat α p p) (msqrt : Mat α n n → Mat α n n)
+    (stQ : Option (Mat α n n)) (stR : Option (Mat α p p)) (calls : List (Call α n m p)) (pr : Post α n) :
+    runUKFobj pinv msqrt stQ stR calls pr
+      = runUKF pinv msqrt (calls.filterMap fun c => (c.toStep stQ stR).map fun s => (resolveK n c.kk, s)) pr := by
+  induction calls generalizing pr with
+  | nil => rfl
+  | cons c rest ih =>
+    simp only [runUKFobj, List.foldl_cons, List.filterMap_cons, ukfCall, Call.toStep] at ih ⊢
+    cases hq : resolve c.pQ stQ <;> cases hr : resolve c.pR stR <;>
+      simp only [runUKF, List.foldl_cons, Option.map_none, Option.map_some] <;> exact ih _
+
+/-- on a linear-Gaussian system the predicted covariance inside `ukf` is `A P Aᵀ + Q` -/
+theorem ukfPredCov_linear (msqrt : Matrix (Fin n) (Fin n) ℝ → Matrix (Fin n) (Fin n) ℝ) (kk : ℝ) (hk : -(n : ℝ) < kk)
+    (l : LinStep n m p) (b : Belief n)
+    (h1 : msqrt (((n : ℝ) + kk) • b.cov) * (msqrt (((n : ℝ) + kk) • b.cov))ᵀ = ((n : ℝ) + kk) • b.cov) :
+    ukfPredCov msqrt kk l.toStep ⟨b.mean, b.cov⟩ = l.A * b.cov * l.Aᵀ + l.Q := by
+  have hN : 0 < (n : ℝ) + kk := by linarith
+  have hab : w0 n kk + 2 * n * wr n kk = 1 := by
+    simp only [w0, wr, k_real]; field_simp; push_cast; ring
+  have h2b : 2 * wr n kk * ((n : ℝ) + kk) = 1 := by
+    simp only [wr, k_real]; field_simp; push_cast; ring
+  set N : ℝ := (n : ℝ) + kk with hNdef
+  set L1 := msqrt (N • b.cov) with hL1def
+  have e1 : (2 * wr n kk) • (l.A * L1 * (l.A * L1)ᵀ) = l.A * b.cov * l.Aᵀ := by
+    rw [Matrix.transpose_mul, Matrix.mul_assoc l.A L1, ← Matrix.mul_assoc L1, h1, Matrix.smul_mul, Matrix.mul_smul,
+      smul_smul, h2b, one_smul, Matrix.mul_assoc]
+  simp only [ukfPredCov, LinStep.toStep, affSys, MemoV.fn_of, MemoM.mfn_of', sigmaPoints_eq, mulVec_eq', vadd_eq,
+    wsum_affine _ _ hab, dev_map_affine, cov_devSig, madd_eq', ← hNdef, ← hL1def, e1]
+  exact add_comm _ _
+end pass4
+end PP.Filter
